@@ -1,7 +1,7 @@
 """C02: an issued index keeps reading the same item until clear."""
 from fcat import Rng
 from props.regcommon import RB, entries
-from props.hist import prehistory
+from props.hist import prehistory, encoded_region
 
 ID = "C02"
 THEOREMS = [("FlatModel.Props.C01", "FC.C02.frame_history"), ("FlatModel.Props.C01", "FC.C02.issued_valid")]
@@ -35,6 +35,19 @@ def one(cat, rng, stack, n):
     return b.s
 
 
+def coded(cat, rng, n):
+    """Huffman-coded compositions in their encoded state: items share partial bytes; empty items at every alignment"""
+    b = RB(ID, cat, rng)
+    pool = encoded_region(b, rng, "a")
+    for k in range(n):
+        v = rng.pick(pool)
+        b.push("a", v, b.form_for(v))
+        b.readall("a", sig="earlier-index-changed@" + b.entry)
+        if k >= 3:
+            b.s.nontrivial = True
+    return b.s
+
+
 def generate(seed, tier):
     rng = Rng(seed * 11 + 2)
     per = {"quick": 6, "thorough": 80, "search": 30}[tier]
@@ -46,4 +59,7 @@ def generate(seed, tier):
         for st in cat["stacks"]:
             for i in range(max(1, per // 3)):
                 out.append(one(cat, rng.fork(), st, 2 + rng.below(maxn)))
+        if cat["term"].has("huffman"):
+            for i in range(per * 3):
+                out.append(coded(cat, rng.fork(), 2 + rng.below(maxn)))
     return out
